@@ -758,6 +758,9 @@ func checkEnv(c *Ctx, e envCase, emit bool) {
 				if strings.HasPrefix(n, "op") { // the operator-adjacency functions compute on integers
 					a = []string{"5", "3", "0", "-4", "7"}[c.R.Intn(5)]
 				}
+				if strings.HasPrefix(n, "mf") || strings.HasPrefix(n, "ml") { // functions made by macros: numbers
+					a = []string{"90", "1", "7", "2.5", "-3"}[c.R.Intn(5)]
+				}
 				args = append(args, a)
 			}
 			call := n + "(" + strings.Join(args, ",") + ")"
@@ -825,10 +828,19 @@ func fnSig(f object.Function, key, outcome string) string {
 	return "function-" + outcome + ":unclassified"
 }
 
+// callObs: outcome class, printed output and the RESULT WITH ITS TYPE (canonical dump: INTEGER 0 and FLOAT 0 differ,
+// floats by bits) of a call; the result is read through a scratch global that is deleted again.
 func callObs(s *eval.State, out *bytes.Buffer, call string) string {
 	out.Reset()
-	panicked, errs := evalQuiet(s, out, call)
+	panicked, errs := evalQuiet(s, out, "vres__ = "+call)
 	o := out.String()
+	out.Reset()
+	if !panicked && len(errs) == 0 {
+		if r := getGlobal(s, "vres__"); r != nil {
+			o += "\x00" + Canon(r)
+		}
+	}
+	evalQuiet(s, out, "del(vres__)")
 	out.Reset()
 	cls := "v"
 	if panicked {
@@ -1158,6 +1170,11 @@ func (x *gen) environment(findings bool) []string {
 	if x.intn(3) == 0 {
 		s, _ := x.strFunc()
 		st = append(st, s)
+	}
+	// functions made by macros whose templates unquote computed values
+	if x.intn(4) == 0 {
+		ms, _ := x.macroFuncs(1 + x.intn(2))
+		st = append(st, ms...)
 	}
 	// a function or lambda whose body puts a prefix operator right after a binary one (or a binary after a postfix)
 	if x.intn(3) == 0 {
